@@ -21,9 +21,11 @@
 EXTENDS Naturals, Integers, Sequences, FiniteSets, TLC
 
 CONSTANTS MaxLen, MaxDepth, TokenKinds,
+          MinFns, MaxFns,   \* number of function bodies of a module: a token F ends one body and starts the next
           ElseFlagCleared   \* TRUE: Statement::If clears is_naked_else_branch before its then-branch (the repaired code)
 
-Simple == {"S", "G", "LP", "L", "V"}
+\* (M: a call statement `h();`, V: a declaration -- every kind of statement in every context)
+Simple == {"S", "G", "LP", "L", "V", "M"}
 
 (***************************************************************************)
 (* Structure.                                                              *)
@@ -66,7 +68,7 @@ RuleSeq(t, starts, x, isBody) ==
     IF x > Len(starts) THEN {}
     ELSE RuleStmt(t, starts[x], IF isBody THEN "body" ELSE IF x = Len(starts) THEN "last" ELSE "mid")
            \cup RuleSeq(t, starts, x + 1, isBody)
-RuleErrors(t) == RuleSeq(t, Starts(t, 1, Len(t)), 1, TRUE)
+RuleErrors1(t) == RuleSeq(t, Starts(t, 1, Len(t)), 1, TRUE)
 
 \* the statements the analysis has to look at: all but those inside a statement rejected with E840
 RECURSIVE SeenStmt(_, _, _), SeenSeq(_, _, _)
@@ -78,7 +80,7 @@ SeenStmt(t, p, ctx) ==
                                  \cup (IF HasElse(t, p) THEN SeenStmt(t, ElseStart(t, p), "else") ELSE {})
             [] OTHER -> {})
 SeenSeq(t, starts, x) == IF x > Len(starts) THEN {} ELSE SeenStmt(t, starts[x], "any") \cup SeenSeq(t, starts, x + 1)
-RuleSeen(t) == SeenSeq(t, Starts(t, 1, Len(t)), 1)
+RuleSeen1(t) == SeenSeq(t, Starts(t, 1, Len(t)), 1)
 
 \* L1800: the first statement of a braced branch is `loop`
 RECURSIVE LintStmt(_, _, _), LintSeq(_, _, _)
@@ -90,7 +92,21 @@ LintStmt(t, p, isBranch) ==
                            \cup (IF HasElse(t, p) THEN LintStmt(t, ElseStart(t, p), TRUE) ELSE {})
       [] OTHER -> {}
 LintSeq(t, starts, x) == IF x > Len(starts) THEN {} ELSE LintStmt(t, starts[x], FALSE) \cup LintSeq(t, starts, x + 1)
-RuleLints(t) == LintSeq(t, Starts(t, 1, Len(t)), 1)
+RuleLints1(t) == LintSeq(t, Starts(t, 1, Len(t)), 1)
+
+(***************************************************************************)
+(* Modules with several functions.  A token F (one source line:            *)
+(* `} fn g<k>() { var x: i32 = 0;`) ends a function body and starts the    *)
+(* next.  The rule speaks about one body: it is applied to every segment   *)
+(* (the tokens keep their positions p, so the verdicts need no lifting).   *)
+(***************************************************************************)
+FPos(t) == {0} \cup { i \in 1..Len(t) : t[i].k = "F" }
+FEndT(t, f) == LET later == { g \in FPos(t) : g > f }
+               IN IF later = {} THEN Len(t) + 1 ELSE CHOOSE g \in later : \A h \in later : g <= h
+SegT(t, f) == SubSeq(t, f + 1, FEndT(t, f) - 1)
+RuleErrors(t) == UNION { RuleErrors1(SegT(t, f)) : f \in FPos(t) }
+RuleSeen(t) == UNION { RuleSeen1(SegT(t, f)) : f \in FPos(t) }
+RuleLints(t) == UNION { RuleLints1(SegT(t, f)) : f \in FPos(t) }
 
 (***************************************************************************)
 (* A -- analyzer/syntax.rs.  f = [nt, ne, ib]; the result carries the      *)
@@ -137,7 +153,14 @@ ABodySeq(t, starts, x, f) ==
              rest == ABodySeq(t, starts, x + 1, r.f)
          IN Res(rest.f, r.errs \cup rest.errs, r.vis \o rest.vis)
 \* FunctionBody::analyze
-Alg(t) == ABodySeq(t, Starts(t, 1, Len(t)), 1, [F0 EXCEPT !.ib = FALSE])
+Alg1(t) == ABodySeq(t, Starts(t, 1, Len(t)), 1, [F0 EXCEPT !.ib = FALSE])
+\* analyzer::analyze makes a fresh Analyzer for every declaration
+RECURSIVE AlgFrom(_, _)
+AlgFrom(t, f) == LET r == Alg1(SegT(t, f))
+                 IN IF FEndT(t, f) > Len(t) THEN r
+                    ELSE LET rest == AlgFrom(t, FEndT(t, f))
+                         IN Res(rest.f, r.errs \cup rest.errs, r.vis \o rest.vis)
+Alg(t) == AlgFrom(t, 0)
 
 (***************************************************************************)
 (* A (linter.rs, L1800 only).  g = [nb, first].                            *)
@@ -165,7 +188,14 @@ LBlockRest(t, ss, x, g) ==
     ELSE LET r == LStmt(t, ss[x], g)
              rest == LBlockRest(t, ss, x + 1, r.g)
          IN LRes(rest.g, r.lints \cup rest.lints)
-AlgLints(t) == LBlockRest(t, Starts(t, 1, Len(t)), 1, G0).lints
+\* the Linter lives as long as the Compiler: its two flags are threaded from one function into the next
+RECURSIVE LFrom(_, _, _)
+LFrom(t, f, g) == LET seg == SegT(t, f)
+                      r == LBlockRest(seg, Starts(seg, 1, Len(seg)), 1, g)
+                  IN IF FEndT(t, f) > Len(t) THEN r
+                     ELSE LET rest == LFrom(t, FEndT(t, f), r.g)
+                          IN LRes(rest.g, r.lints \cup rest.lints)
+AlgLints(t) == LFrom(t, 0, G0).lints
 
 (***************************************************************************)
 (* Gen.  ctx is the grammar stack: "F" function body, "B" block, "T" a     *)
@@ -195,9 +225,10 @@ Add(k) ==
               [] k = "O" -> Len(s) < MaxDepth /\ ctx' = s \o <<"B">>
               [] k = "I" -> Len(s) < MaxDepth /\ ctx' = s \o <<"T">>
               [] k = "C" -> s[Len(s)] = "B" /\ ctx' = Complete(SubSeq(s, 1, Len(s) - 1))
+              [] k = "F" -> s = <<"F">> /\ Cardinality(FPos(toks)) < MaxFns /\ ctx' = <<"F">>
     /\ toks' = Append(toks, Tok(k))
     /\ UNCHANGED done
-Finish == /\ ~done /\ Settle(ctx) = <<"F">>
+Finish == /\ ~done /\ Settle(ctx) = <<"F">> /\ Cardinality(FPos(toks)) >= MinFns
           /\ done' = TRUE /\ UNCHANGED <<toks, ctx>>
 Next == (\E k \in TokenKinds : Add(k)) \/ Finish
 Spec == Init /\ [][Next]_vars
